@@ -675,6 +675,49 @@ def rule_W(ck, lib, tag=""):
             return (a if sh == "arg" else ("call", "core::str::as_bytes", (a,), None) if sh == "bytes" else ("cast", a, "u8")), None, dels[0]
         return None, (apps[0] if apps else None), (dels[0] if dels else None)
 
+    def through_adapter(b, x, ps, arg):
+        """write_fmt hands `args` to core::fmt::write with a local adapter that wraps `self` (so that it can keep notes, e.g.
+        whether the buffer ran full): accepted when the adapter's own fmt::Write::write_str appends exactly its argument to
+        the wrapped writer on every success path, and write_fmt's success path is the one where core::fmt::write succeeded."""
+        fw = [c for c in x.calls() if c[1] == "core::fmt::write" or c[1].endswith("fmt::Write::write_fmt")]
+        if len(fw) != 1 or len(fw[0][2]) != 2 or strip_sites(fw[0][2][1]) != arg:
+            return False
+        ad = strip_sites(fw[0][2][0])
+        while ad[0] in ("ref", "refmut", "mutref", "deref"):
+            ad = ad[1]
+        if ad[0] != "struct":
+            return False
+        wrapped = [f_ for f_, v_ in ad[2] if v_ == SELF]
+        if len(wrapped) != 1:
+            return False
+        if ps.decided(St(x.conds), ("call",) + fw[0][1:], OK) is not True:
+            return False
+        b2s = [b_ for b_ in lib.facts["bodies"] if b_.get("trait") == "core::fmt::Write" and b_.get("name") == "write_str" and (b_.get("self_ty") or "").split("<'")[0].split("<")[0] == ad[1].split("<'")[0]
+               or (b_.get("trait") == "core::fmt::Write" and b_.get("name") == "write_str" and (b_.get("self_ty") or "").startswith(ad[1]))]
+        if len(b2s) != 1:
+            return False
+        ex2, ps2 = ctx.summarize(lib, b2s[0]["def"], ck)
+        s_arg = ("param", b2s[0]["params"][1].get("name"))
+        seen_ok = False
+        for y in ex2 or []:
+            apps2 = [c for c in y.calls() if c[1].split("::")[-1] in ("extend_from_slice", "push_str", "write_str", "write_bytes")]
+            v = y.value
+            is_ok = v is not None and v[0] == "ctor" and v[1] == OK
+            if is_ok:
+                seen_ok = True
+                if len(apps2) != 1:
+                    return False
+                recv, dat = strip_sites(apps2[0][2][0]), strip_sites(apps2[0][2][1])
+                while recv[0] in ("deref", "ref", "refmut", "mutref"):
+                    recv = recv[1]
+                if recv != ("field", SELF, wrapped[0]):
+                    return False
+                if not (dat == s_arg or (dat[0] == "call" and dat[1].endswith("::as_bytes") and dat[2] == (s_arg,))):
+                    return False
+                if ps2.decided(St(y.conds), ("call",) + apps2[0][1:], OK) is False:
+                    return False
+        return seen_ok
+
     for b in impls:
         ex, ps = ctx.summarize(lib, b["def"], ck)
         name = b["name"]
@@ -689,6 +732,8 @@ def rule_W(ck, lib, tag=""):
         why = ""
         for x in oks:
             data, app, dele = appended(b, x, ps)
+            if data is None and name == "write_fmt" and through_adapter(b, x, ps, arg):
+                continue        # formatted through a forwarding core::fmt::Write adapter around self
             if data is None:
                 good = False
                 why = "success path does not append exactly once (directly or through one sibling method of the same writer)"
